@@ -22,6 +22,7 @@ BUILD = os.path.join(VERIF, ".build")
 HARNESS = os.path.join(VERIF, "harness")
 REPO = os.path.join(os.path.dirname(VERIF), "repo")
 NCPU = min(16, os.cpu_count() or 4)
+COQC_MEM_KB = 10 * 1024 * 1024   # 10 GB per coqc evaluating correspondence cases
 
 ALLOWED_AXIOMS = {
     # the classical real numbers of the standard library
@@ -335,7 +336,9 @@ class Check:
                 f.write('Goal True. idtac "@@RESULT". Abort.\n')
                 f.write("Eval vm_compute in (fails 0%N cases).\n")
                 f.write('Goal True. idtac "@@DONE". Abort.\n')
-            rc, out, dt = sh(["coqc", "-noglob", "-Q", os.path.join(COQ, "theories"), "Clarabel", fn], timeout=timeout, cwd=self.wdir)
+            # address-space cap: a pathological case must fail its shard, not exhaust the machine
+            cmd = "ulimit -v %d; exec coqc -noglob -Q %s Clarabel %s" % (COQC_MEM_KB, os.path.join(COQ, "theories"), fn)
+            rc, out, dt = sh(["bash", "-c", cmd], timeout=timeout, cwd=self.wdir)
             return si, rc, out, sh_cases
 
         bad, errors = [], []
